@@ -28,7 +28,7 @@ REPORT_COUNTERS = ['bases', 'variants', 'equal_PY', 'equal_CPP', 'spans_checked_
 def plan(tier, seed):
   flavour = 'asan' if tier == 'thorough' else 'prod'
   return {'nshards': 16, 'timeout_s': 7200 if tier == 'thorough' else 1200,
-          'params': {'n_bases': 90 if tier == 'thorough' else 70, 'n_variants': 6 if tier == 'thorough' else 5, 'flavour': flavour},
+          'params': {'n_bases': 12 if tier == 'thorough' else 70, 'n_variants': 6 if tier == 'thorough' else 5, 'flavour': flavour},
           'env': build.shard_env(flavour)}
 
 
